@@ -61,6 +61,13 @@ def star (nPoints : Nat) (inner outer : α) : List (Pt2 α) :=
      ⟨dcos (angle * (cast i + half)) * outer, dsin (angle * (cast i + half)) * outer⟩]
 
 /-! ### chains -/
+/-- `QuadraticBezier2D` -/
+structure Quadratic (α : Type) where
+  start : Pt2 α
+  control : Pt2 α
+  end_ : Pt2 α
+  segments : Nat
+
 structure Cubic (α : Type) where
   start : Pt2 α
   control1 : Pt2 α
